@@ -1,2 +1,333 @@
+"""C03 -- line smoothers core.gauss_seidel_x/_y/_z through the real core.blocks_to_amat.
+
+Unknown ordering of a line (contract; checked against the write-back loop):
+  block m of an x-line (iy,iz): ex[m,iy,iz], ey[m+1,iy-1,iz], ey[m+1,iy,iz], ez[m+1,iy,iz-1], ez[m+1,iy,iz]
+  (y, z lines cyclic, see LINE); the last block (m = n-1) has the first unknown only.
+Precondition PEC(e) (tangential boundary values zero) -- established by solver.solve, kept by
+every kernel's frame.
+"""
+import z3
+
+from pyvc import sx, ob, intake, prove
+from . import spec
+from .kernel_env import KEnv, ZERO, ONE
+from .c03 import PROP, GS_ARGS, READONLY, e_havoc, asym, uf_names, bounds_obligations, replay_gs
+
+AX = dict(x=0, y=1, z=2)
+LINE = {
+    'x': [('x', (0, 0, 0)), ('y', (1, -1, 0)), ('y', (1, 0, 0)), ('z', (1, 0, -1)), ('z', (1, 0, 0))],
+    'y': [('y', (0, 0, 0)), ('x', (-1, 1, 0)), ('x', (0, 1, 0)), ('z', (0, 1, -1)), ('z', (0, 1, 0))],
+    'z': [('z', (0, 0, 0)), ('x', (-1, 0, 1)), ('x', (0, 0, 1)), ('y', (0, -1, 1)), ('y', (0, 0, 1))],
+}
+# loop ordinals (pre-order) of the three kernels: nu, outer, inner, assembly, k-loop, write-back
+POSVARS = dict(x=('iy', 'iz'), y=('ix', 'iz'), z=('ix', 'iy'))
+
+
+def unknown(d, m, p, pos):
+    """(component, index) of unknown p of block m on the line at position pos (dict ix/iy/iz)"""
+    c, off = LINE[d][p]
+    base = [pos.get('ix'), pos.get('iy'), pos.get('iz')]
+    base[AX[d]] = m
+    return c, tuple(b + o for b, o in zip(base, off))
+
+
+def e_post_accessors(d, pos, n_d, pre, x):
+    """field after write-back according to the contract's unknown map: pre[c] with the line's
+    unknowns replaced by x(5 m + p)"""
+    ax = AX[d]
+
+    def mk(c):
+        def f(i, j, k):
+            idx = (i, j, k)
+            val = pre[c](i, j, k)
+            for p in range(4, -1, -1):
+                cc, off = LINE[d][p]
+                if cc != c:
+                    continue
+                b = [a - o for a, o in zip(idx, off)]          # base position
+                m = b[ax]
+                conds = [0 <= m, m <= (n_d - 1 if p == 0 else n_d - 2)]
+                for a2, name in ((0, 'ix'), (1, 'iy'), (2, 'iz')):
+                    if a2 != ax:
+                        conds.append(b[a2] == pos[name])
+                val = z3.If(z3.And(*conds), x(5 * m + p), val)
+            return val
+        return f
+    return {c: mk(c) for c in 'xyz'}
+
+
+def run_line(d, K, col, iback_entry, m, iters, scratch_U=None, generic_asm=False, e_bases=None, s_bases=None):
+    fname = f'core.gauss_seidel_{d}'
+    fn = col.function(fname)
+    col.function('core.blocks_to_amat')
+    params = [a.arg for a in fn.args.args]
+    if params != GS_ARGS:
+        raise sx.OutsideSubset(f'{fname} signature changed: {params}')
+    loops = intake.loops_preorder(fn)
+    if len(loops) != 6:
+        raise sx.OutsideSubset(f'{fname}: expected 6 loops, found {len(loops)}')
+    nu = z3.Int('nu')
+    x = z3.Function('xsol', sx.I, sx.RS)
+    calls = []
+
+    def solve_handler(ex, args, node):
+        amat, bvec = args
+        if not isinstance(amat, sx.ArrObj) or not isinstance(bvec, sx.ArrObj):
+            raise sx.OutsideSubset(f'{fname}: solve() not called with the line system arrays')
+        calls.append(dict(amat=amat.st, bvec=bvec.st, amat_shape=amat.shape, bvec_shape=bvec.shape,
+                          nbounds=len(ex.bounds), env=dict(ex.env)))
+        bvec.st = sx.ArrState(lambda i: x(i))
+        return None
+    hv = e_havoc(K, 'g_') if e_bases is None else {('e' + c): (lambda ex, arr, n_it, c=c: e_bases[c]) for c in 'xyz'}
+    ib = z3.Int('iback_in')
+    gen_nu = dict(keep=READONLY, havoc_fn=hv, scalars={'iback': (lambda ex, n_it: (ib, [ib == iback_entry]))})
+    gen_in = dict(keep=READONLY, havoc_fn=hv)
+
+    def scratch(name):
+        def f(ex, arr, n_it):
+            k = next(ex.fresh)
+            return [ZERO if (scratch_U is not None and q in scratch_U[name]) else z3.Real(f'{name}_in{k}_{q}')
+                    for q in range(len(arr.vals))]
+        return f
+    asm_opts = dict(keep=READONLY + ('amat', 'bvec', 'ex', 'ey', 'ez'), havoc_fn=dict(middle=scratch('middle'), left=scratch('left')))
+    if generic_asm:
+        asm = ('gen', 'asm', dict(asm_opts, var=iters[0]))
+    else:
+        asm = ('symseq', 'asm', dict(asm_opts, vars=iters))
+    wbv = z3.Int('wb')
+    X = sx.Ex('core', pc=K.hyps + [nu >= 1, K.n[AX[d]] >= 3], funcs={'solve': solve_handler},
+              loops={0: ('gen', 'nu', gen_nu), 1: ('gen', 'o1', gen_in), 2: ('gen', 'o2', gen_in),
+                     3: asm, 5: ('sym', 'wb', dict(var=wbv, stop=True))})
+    args = [K.a(p) if p != 'nu' else nu for p in params]
+    if s_bases is not None:
+        for i, p in enumerate(params):
+            if p in ('sx', 'sy', 'sz'):
+                args[i] = sx.ArrObj('alt_' + p, spec.edge_shape(p[1], K.n), base=s_bases[p[1]])
+    X.run_function(fn, args)
+    if len(calls) != 1 or 'wb' not in X.snap:
+        raise sx.OutsideSubset(f'{fname}: expected one solve() per line followed by the write-back loop')
+    return X, dict(zip(params, args)), calls[0], x, wbv
+
+
+def scratch_unassigned(d, K_unused, col):
+    """generic assembly iteration mg+1 (mg constrained by the loop range only, all three branches of
+    blocks_to_amat under guards, scratch arrays fully havocked): yields the write sets W(mg) and the
+    positions of middle/left that an iteration never assigns"""
+    K = KEnv(pec=True)
+    K.hyps = K.hyps + [K.n[AX[d]] >= 3]
+    m = z3.Int('mg')
+    X, argmap, call, x, wbv = run_line(d, K, col, 0, m, [m + 1], scratch_U=None, generic_asm=True)
+    ent = X.snap['asm:entry']['loc']
+    out = {}
+    for name in ('middle', 'left'):
+        now = X.snap['asm']['loc'][name]
+        out[name] = {q for q in range(len(now)) if now[q] is ent[name][q]}
+    pre = X.snap['asm:pre']['loc']
+    zero_after_reset = all(z3.is_rational_value(z3.simplify(sx.toreal(v))) and z3.simplify(sx.toreal(v)).as_fraction() == 0
+                           for name in ('middle', 'left') for v in pre[name])
+    return out, zero_after_reset, X
+
+
+CASES = {
+    'first': lambda m, n: ([m == 0], [m + 1, m + 2], range(5)),
+    'middle': lambda m, n: ([m >= 1, m <= n - 3], [m + 1, m + 2], range(5)),
+    'penult': lambda m, n: ([m >= 1, m == n - 2], [m + 1, m + 2], range(5)),
+    'last': lambda m, n: ([m == n - 1], [m + 1], range(1)),
+}
+
+
+def task_line(d, direction, case):
+    col = ob.Collector(PROP, f'core.gauss_seidel_{d}/{direction}/{case}')
+    K = KEnv(pec=True)
+    n_d = K.n[AX[d]]
+    m = z3.Int('m')
+    chyps, iters, rows = CASES[case](m, n_d)
+    K.hyps = K.hyps + chyps + [n_d >= 3]
+    U, zero_ok, X0 = scratch_unassigned(d, K, col)
+    ibe = 0 if direction == 'backward' else 1
+    X, argmap, call, x, wbv = run_line(d, K, col, ibe, m, iters, scratch_U=U)
+    env = call['env']
+    pos = {k: env[k] for k in POSVARS[d]}
+    hyps = list(X.snap['asm']['pc'])
+    col.satisfiable('hyps-sat', hyps)
+    # field before the write-back = field at the solve call (the assembly does not write e)
+    st = X.snap['asm']['arr']
+    pre = {c: (lambda i, j, k, s_=st[argmap['e' + c].uid]: s_.read([sx.R(i), sx.R(j), sx.R(k)])) for c in 'xyz'}
+    post = e_post_accessors(d, pos, n_d, pre, x)
+    acc0 = lambda name: (lambda *idx: argmap[name].read0(idx))
+    p_ = spec.Fld(post['x'], post['y'], post['z'], acc0('eta_x'), acc0('eta_y'), acc0('eta_z'), acc0('zeta'), *K.ih())
+    nr = 5 * n_d - 4
+    amat_read = lambda q: call['amat'].read([sx.R(q)])
+    S = z3.Solver()
+    for h in hyps:
+        S.add(h)
+
+    def entailed(c):
+        S.push()
+        S.add(z3.Not(c))
+        r = S.check()
+        S.pop()
+        return r == z3.unsat
+    mg = z3.Int('mg')
+    hy0 = list(X0.snap['asm']['pc'])
+    W = {nm: [b for b in X0.bounds if b['kind'] == 'write' and b['arr'] == nm] for nm in ('amat', 'bvec')}
+
+    def only_modelled(nm, cells):
+        goals = []
+        for w in W[nm]:
+            g = [x_ for x_ in w['hyps'] if not any(x_.eq(h) for h in hy0)]
+            for cell in cells:
+                goals.append(z3.Implies(z3.And(*g, w['idx'][0] == cell), z3.Or(*[mg + 1 == it for it in iters])))
+        return z3.And(*goals) if goals else z3.BoolVal(False)
+    for p in rows:
+        read_cells = []
+        r = 5 * m + p
+        lhs = call['bvec'].read([r])
+        for dd in range(-5, 6):
+            cidx = r + dd
+            if entailed(z3.Or(cidx < 0, cidx >= nr)):
+                continue
+            hi, lo = (r, cidx) if dd <= 0 else (cidx, r)
+            cell = hi + 5 * lo
+            read_cells.append(cell)
+            lhs = lhs - amat_read(cell) * x(cidx)
+        c, I = unknown(d, m, p, pos)
+        rhs = acc0('s' + c)(*I) - spec.A_spec(c, p_, I, ONE, ZERO)
+        col.eq(f'master/p{p}', hyps, lhs, rhs, replay=replay_gs(f'gauss_seidel_{d}'), smt_sample=(p == 0 and case == 'middle'))
+        col.lia(f'edge_interior/p{p}', hyps, z3.And(*spec.edge_interior(c, I, K.n)))
+        col.lia(f'asm/row_p{p}_cells_written_only_by_modelled_iterations', hyps + hy0,
+                z3.And(only_modelled('amat', read_cells), only_modelled('bvec', [r])))
+    if case == 'middle':
+        # canary: without the coupling to the right neighbour block the identity must fail
+        r = 5 * m
+        lhs = call['bvec'].read([r])
+        for dd in range(-5, 1):
+            lhs = lhs - amat_read(r + 5 * (r + dd)) * x(r + dd)
+        c, I = unknown(d, m, 0, pos)
+        col.canary_eq('canary/no_right_coupling', hyps, lhs, acc0('s' + c)(*I) - spec.A_spec(c, p_, I, ONE, ZERO))
+    # ---- justification of the two-iteration model of the assembly loop
+    if case == 'middle' and direction == 'forward':
+        side_conditions(d, K, col, X0, U, zero_ok, m, n_d, direction)
+    # ---- write-back loop against the contract's unknown map, PEC frame
+    if case == 'middle':
+        writeback(d, K, col, X, argmap, call, x, wbv, pos, n_d, pre, post)
+        bounds_obligations(col, X, hyps)
+    return col.pack()
+
+
+def side_conditions(d, K, col, X0, U, zero_ok, m, n_d, direction):
+    """(S1) the assembly body never reads amat/bvec, (S2) each amat/bvec cell is written by at most one
+    assembly iteration, (S3) scratch arrays: unassigned positions are zero after the reset and stay so."""
+    asm_b = [b for b in X0.bounds]
+    m = z3.Int('mg')      # generic assembly iteration of the preliminary run: loop variable == mg+1
+    hy = [h for h in X0.snap['asm']['pc']]
+    reads = [b for b in asm_b if b['kind'] == 'read' and b['arr'] in ('amat',)]
+    col.lia('asm/no_read_of_amat', [], z3.BoolVal(len(reads) == 0))
+    w_amat = [b for b in asm_b if b['kind'] == 'write' and b['arr'] == 'amat']
+    w_bvec = [b for b in asm_b if b['kind'] == 'write' and b['arr'] == 'bvec']
+    col.lia('asm/writes_exist', [], z3.BoolVal(len(w_amat) >= 29 + 15 + 5 and len(w_bvec) >= 5 + 5 + 1))
+    m2 = z3.Int('m2')
+    for name, ws in (('amat', w_amat), ('bvec', w_bvec)):
+        goals = []
+        for a in ws:
+            ga = z3.And(*[g for g in a['hyps'] if not any(g.eq(h) for h in hy)] or [z3.BoolVal(True)])
+            for b in ws:
+                gb = z3.And(*[g for g in b['hyps'] if not any(g.eq(h) for h in hy)] or [z3.BoolVal(True)])
+                gb2 = z3.substitute(gb, (m, m2))
+                ib2 = z3.substitute(b['idx'][0], (m, m2))
+                goals.append(z3.Implies(z3.And(ga, gb2, a['idx'][0] == ib2), m == m2))
+        hy2 = hy + [z3.substitute(h, (m, m2)) for h in hy]
+        col.lia(f'asm/{name}_cell_written_by_at_most_one_iteration', hy2, z3.And(*goals))
+    col.lia('scratch/zero_after_reset', [], z3.BoolVal(bool(zero_ok)))
+    col.lia('scratch/unassigned_positions', [], z3.BoolVal(len(U['middle']) > 0 and len(U['left']) > 0))
+
+
+def writeback(d, K, col, X, argmap, call, x, wbv, pos, n_d, pre, post):
+    hyps = list(X.snap['wb']['pc'])
+    enames = {argmap['e' + c].name: c for c in 'xyz'}
+    ws = [b for b in X.bounds[call['nbounds']:] if b['kind'] == 'write']
+    col.lia('writeback/only_field_arrays_written', [], z3.BoolVal(all(w['arr'] in enames for w in ws) and len(ws) == 5))
+    stw = X.snap['wb']['arr']
+    for q, w in enumerate(ws):
+        c = enames.get(w['arr'])
+        if c is None:
+            continue
+        extra = [g for g in w['hyps'] if not any(g.eq(h) for h in hyps)]
+        # the value written by the code at this index == the contract's e_post at this index
+        written = stw[argmap['e' + c].uid].read(list(w['idx']))
+        col.eq(f'writeback/store{q}_matches_unknown_map', hyps + extra, written, post[c](*w['idx']))
+        col.lia(f'pec_frame/store{q}_hits_interior_edge', hyps + extra, z3.And(*spec.edge_interior(c, w['idx'], K.n)))
+    # coverage: every unknown (m', p) of the contract is stored by iteration wb = m'+1
+    mp = z3.Int('mp')
+    for p in range(5):
+        c, I = unknown(d, mp, p, pos)
+        rng = [0 <= mp, mp <= (n_d - 1 if p == 0 else n_d - 2)]
+        hit = []
+        for w in ws:
+            if enames.get(w['arr']) != c:
+                continue
+            extra = [g for g in w['hyps'] if not any(g.eq(h) for h in hyps)]
+            sub = lambda t: z3.substitute(t, (wbv, mp + 1))
+            hit.append(z3.And(*[sub(g) for g in extra], *[sub(a) == b for a, b in zip(w['idx'], I)]))
+        base_h = [h for h in hyps if not uses(h, wbv)]
+        in_range = z3.And(*[z3.substitute(h, (wbv, mp + 1)) for h in hyps if uses(h, wbv)])
+        col.lia(f'writeback/unknown_p{p}_is_stored', base_h + rng, z3.And(in_range, z3.Or(*hit) if hit else z3.BoolVal(False)))
+
+
+def uses(t, v):
+    seen = set()
+
+    def walk(e):
+        if e.get_id() in seen:
+            return False
+        seen.add(e.get_id())
+        if e.eq(v):
+            return True
+        return any(walk(c) for c in e.children())
+    return walk(t)
+
+
+def task_line_affine(d):
+    col = ob.Collector(PROP, f'core.gauss_seidel_{d}/affine')
+    K = KEnv(pec=False)
+    n_d = K.n[AX[d]]
+    m = z3.Int('m')
+    K.hyps = K.hyps + [m >= 1, m <= n_d - 3, n_d >= 3]
+    t = z3.Real('t')
+    F = {w: {c: z3.Function(f'{w}_e{c}', sx.I, sx.I, sx.I, sx.RS) for c in 'xyz'} for w in 'uv'}
+    S = {w: {c: z3.Function(f'{w}_s{c}', sx.I, sx.I, sx.I, sx.RS) for c in 'xyz'} for w in 'uv'}
+
+    def bases(w):
+        if w in 'uv':
+            return ({c: (lambda i, j, k, f=F[w][c]: f(i, j, k)) for c in 'xyz'},
+                    {c: (lambda i, j, k, f=S[w][c]: f(i, j, k)) for c in 'xyz'})
+        return ({c: (lambda i, j, k, c=c: t * F['u'][c](i, j, k) + (1 - t) * F['v'][c](i, j, k)) for c in 'xyz'},
+                {c: (lambda i, j, k, c=c: t * S['u'][c](i, j, k) + (1 - t) * S['v'][c](i, j, k)) for c in 'xyz'})
+    U, zero_ok, X0 = scratch_unassigned(d, K, col)
+    res = {}
+    for w in ('u', 'v', 'mix'):
+        eb, sb = bases(w)
+        X, argmap, call, x, wbv = run_line(d, K, col, 0, m, [m + 1, m + 2], scratch_U=U, e_bases=eb, s_bases=sb)
+        res[w] = (X, call)
+    hyps = res['mix'][0].snap['asm']['pc']
+    for p in range(5):
+        r = 5 * m + p
+        col.eq(f'bvec_affine/p{p}', hyps, res['mix'][1]['bvec'].read([r]),
+               t * res['u'][1]['bvec'].read([r]) + (1 - t) * res['v'][1]['bvec'].read([r]))
+        for dd in range(-5, 1):
+            cell = r + 5 * (r + dd)
+            a = res['u'][1]['amat'].read([cell])
+            names = uf_names(prove.Resolver(hyps).walk(a))
+            bad = sorted(nm for nm in names if nm[:3] in ('u_e', 'u_s', 'v_e', 'v_s'))
+            col.lia(f'amat_free_of_field_and_source/p{p}_d{dd}', [], z3.BoolVal(not bad))
+    return col.pack()
+
+
 def tasks(tier):
-    return []
+    t = []
+    for d in 'xyz':
+        for direction in ('forward', 'backward'):
+            for case in CASES:
+                t.append(('contracts.c03_lines', 'task_line', dict(d=d, direction=direction, case=case)))
+        t.append(('contracts.c03_lines', 'task_line_affine', dict(d=d)))
+    return t
